@@ -198,7 +198,11 @@ def run_binary(binpath, casefile, timeout=300, env_extra=None):
         except subprocess.TimeoutExpired as e:
             out = e.stdout.decode() if isinstance(e.stdout, bytes) else (e.stdout or '')
             rc = 'timeout'
-        outl = out.splitlines()
+        outl_all = out.splitlines()
+        outl = [l for l in outl_all if not l.startswith('#H')]
+        hist = [l for l in outl_all if l.startswith('#H')]
+        if hist:
+            out_all.append(('hist', hist))
         # renumber: chunk may start in the middle of a case; the binary restarts idx at 0 after a G line
         out_all.append((start, header, outl))
         n_inputs = sum(1 for l in chunk if l.startswith('I '))
@@ -246,6 +250,8 @@ def assemble_impl_output(out_all, casefile):
     res = {}
     ki = 0
     for item in out_all:
+        if item[0] == 'hist':
+            continue
         if item[0] == 'crash':
             res[keys[ki]] = ['CRASH', str(item[2])]
             ki += 1
@@ -266,7 +272,7 @@ def run_model(casefile, timeout=1200):
     return parse_out(p.stdout)
 
 
-def run_cases(cases, workdir, nbatch=8, indented=False):
+def run_cases(cases, workdir, nbatch=8, indented=False, seed=1):
     """full pipeline. Returns dict with per-case results."""
     t0 = time.time()
     if os.path.exists(workdir):
@@ -287,12 +293,19 @@ def run_cases(cases, workdir, nbatch=8, indented=False):
     live, bins, cfail, t_build = build_batches(batches, casedir)
     impl = {}
     model = {}
+    hist = []
     t1 = time.time()
     for i, (b, binp) in enumerate(zip(live, bins)):
         cf = os.path.join(casedir, 'cases_b%d.txt' % i)
         with open(cf, 'w') as f:
             f.write(case_file_text(b))
-        out_all = run_binary(binp, cf, env_extra={'PV_INDENTED': '1'} if indented else None)
+        extra = {'PV_HISTORY': '1', 'PV_SEED': str(seed)}
+        if indented:
+            extra['PV_INDENTED'] = '1'
+        out_all = run_binary(binp, cf, env_extra=extra)
+        for item in out_all:
+            if item[0] == 'hist':
+                hist += item[1]
         impl.update(assemble_impl_output(out_all, cf))
         model.update(run_model(cf))
     # cases that did not reach the binary still get a model run (for compile-outcome comparison)
@@ -306,7 +319,7 @@ def run_cases(cases, workdir, nbatch=8, indented=False):
     for f in os.listdir(casedir):
         if f.endswith('.bin'):
             os.remove(os.path.join(casedir, f))
-    return dict(gen=gen, compile_fail=cfail, impl=impl, model=model,
+    return dict(gen=gen, compile_fail=cfail, impl=impl, model=model, hist=hist,
                 timing=dict(harness=t_h, build=t_build, run=t_run, total=time.time() - t0))
 
 
